@@ -38,7 +38,8 @@ def main():
     rc, o = sh(f"git -C /repo worktree add --detach {repo} HEAD")
     shutil.copy("/repo/Cargo.lock", f"{repo}/Cargo.lock")
     # share build output between seeded runs to save time and disk
-    tgt = {"CARGO_TARGET_DIR": f"{WORK}/target-repo"}
+    # own target directory per run (cargo names test binaries alike in different worktrees)
+    tgt = {"CARGO_TARGET_DIR": f"{work}/target-repo"}
     meta = {"property": pid, "source": src, "ran": []}
     diff = open(f"{src}/seeded.diff").read()
     demo = f"{src}/tests/seeded_demo.rs"
